@@ -957,6 +957,221 @@ theorem grantRevoke_statement_render_parse (text : Str) (params : List (Str × B
     obtain ⟨s', h1, _⟩ := revokeAdmin_render_parse _ s ps hp g1 w1 g2 sp1 user _ hL2 hs
     exact ⟨s', h1⟩
 
+/-! ### CREATE RETENTION POLICY -/
+
+/-- The optional `SHARD DURATION <literal>` (`INF` is rejected there by the parser). -/
+def shardPieces : Option (Render.Gap × Str × Render.Gap × Str × Render.Gap × Str) → List (Render.Gap × Piece)
+  | none => []
+  | some (g1, w1, g2, w2, g3, lit) => [(g1, .kw .SHARD w1), (g2, .kw .DURATION w2), (g3, .dur lit)]
+
+/-- The optional `DEFAULT`. -/
+def defaultPieces : Option (Render.Gap × Str) → List (Render.Gap × Piece)
+  | none => []
+  | some (g, w) => [(g, .kw .DEFAULT w)]
+
+/-- The optional `FUTURE LIMIT <duration>` / `PAST LIMIT <duration>`. -/
+def limitPieces (t : Token) : Option (Render.Gap × Str × Render.Gap × Str × Render.Gap × DurSpelling) → List (Render.Gap × Piece)
+  | none => []
+  | some (g1, w1, g2, w2, g3, ds) => [(g1, .kw t w1), (g2, .kw .LIMIT w2), (g3, ds.piece)]
+
+/-- Absent means zero; present, the value `ParseDuration` gives the literal. -/
+def ShardDenotes : Option (Render.Gap × Str × Render.Gap × Str × Render.Gap × Str) → Int → Prop
+  | none, v => v = 0
+  | some (_, _, _, _, _, lit), v => parseDuration lit = .ok v
+
+def LimitDenotes : Option (Render.Gap × Str × Render.Gap × Str × Render.Gap × DurSpelling) → Int → Prop
+  | none, v => v = 0
+  | some (_, _, _, _, _, ds), v => ds.Denotes v
+
+theorem headTokIn_shard (c) : HeadTokIn (shardPieces c) [.SHARD] := by
+  cases c with
+  | none => exact .nil _
+  | some c => obtain ⟨g1, w1, g2, w2, g3, lit⟩ := c; exact .cons _ _ _ _ (by simp [Piece.tok])
+
+theorem headTokIn_default (c) : HeadTokIn (defaultPieces c) [.DEFAULT] := by
+  cases c with
+  | none => exact .nil _
+  | some c => obtain ⟨g, w⟩ := c; exact .cons _ _ _ _ (by simp [Piece.tok])
+
+theorem headTokIn_limit (t : Token) (c) : HeadTokIn (limitPieces t c) [t] := by
+  cases c with
+  | none => exact .nil _
+  | some c => obtain ⟨g1, w1, g2, w2, g3, ds⟩ := c; exact .cons _ _ _ _ (by simp [Piece.tok])
+
+/-- The optional `SHARD DURATION` clause in free spelling. -/
+theorem crp_shard_render (s : PState) (c : Option (Render.Gap × Str × Render.Gap × Str × Render.Gap × Str)) (sh : Int)
+    (rest : List (Render.Gap × Piece)) (k : Str) (ts : List Token) (hv : ShardDenotes c sh)
+    (hL : Legal (shardPieces c ++ rest) k) (hs : s.Around (render (shardPieces c ++ rest) ++ k))
+    (hh : HeadTokIn rest ts) (hts : Token.SHARD ∉ ts) (hk : NextNot k .SHARD) :
+    ∃ s', (do
+        if ← optTok .SHARD then
+          expectTok .DURATION ["DURATION"]
+          parseShardDuration
+        else pure 0 : P Int).run s = .ok (sh, s') ∧ s'.Around (render rest ++ k) := by
+  cases c with
+  | none =>
+    have hv' : sh = 0 := hv
+    subst hv'
+    obtain ⟨s1, h1, b1⟩ := optTok_absent_render .SHARD s rest k ts hs hL hh hts hk
+    refine ⟨s1, ?_, b1⟩
+    rw [P.run_bind _ _ s false s1 h1]
+    rfl
+  | some c =>
+    obtain ⟨g1, w1, g2, w2, g3, lit⟩ := c
+    have hv' : parseDuration lit = .ok sh := hv
+    obtain ⟨s1, h1, b1⟩ := optTok_of (t := .SHARD) (L := []) (step s g1 _ _ k hL hs)
+    obtain ⟨s2, h2, b2⟩ := expectTok_of (t := .DURATION) (L := []) ["DURATION"] (step s1 g2 _ _ k hL.tail b1.around)
+    obtain ⟨lx, s3, h3, t3, a3⟩ := peek_step s2 g3 (.dur lit) _ k hL.tail.tail b2.around
+    obtain ⟨s4, h4, b4⟩ := parseDurationTok_of hv' (step _ g3 (.dur lit) _ k hL.tail.tail a3)
+    refine ⟨s4, ?_, b4.around⟩
+    rw [P.run_bind _ _ s true s1 h1]
+    simp only [if_true]
+    rw [P.run_bind _ _ s1 () s2 h2]
+    unfold parseShardDuration
+    rw [P.run_bind _ _ s2 lx s3 h3]
+    simp only [t3, Piece.tok, reduceCtorEq, if_false]
+    rw [P.run_bind _ _ s3 () _ (unscan_run s3)]
+    exact h4
+
+/-- The optional `DEFAULT` in free spelling. -/
+theorem crp_default_render (s : PState) (c : Option (Render.Gap × Str)) (rest : List (Render.Gap × Piece)) (k : Str)
+    (ts : List Token) (hL : Legal (defaultPieces c ++ rest) k) (hs : s.Around (render (defaultPieces c ++ rest) ++ k))
+    (hh : HeadTokIn rest ts) (hts : Token.DEFAULT ∉ ts) (hk : NextNot k .DEFAULT) :
+    ∃ s', (optTok .DEFAULT).run s = .ok (c.isSome, s') ∧ s'.Around (render rest ++ k) := by
+  cases c with
+  | none => exact optTok_absent_render .DEFAULT s rest k ts hs hL hh hts hk
+  | some c =>
+    obtain ⟨g, w⟩ := c
+    obtain ⟨s1, h1, b1⟩ := optTok_of (t := .DEFAULT) (L := []) (step s g _ _ k hL hs)
+    exact ⟨s1, h1, b1.around⟩
+
+/-- The optional `FUTURE LIMIT` / `PAST LIMIT` clause in free spelling. -/
+theorem crp_limit_render (t : Token) (s : PState)
+    (c : Option (Render.Gap × Str × Render.Gap × Str × Render.Gap × DurSpelling)) (v : Int) (rest : List (Render.Gap × Piece))
+    (k : Str) (ts : List Token) (hv : LimitDenotes c v) (hL : Legal (limitPieces t c ++ rest) k)
+    (hs : s.Around (render (limitPieces t c ++ rest) ++ k)) (hh : HeadTokIn rest ts) (hts : t ∉ ts)
+    (hk : NextNot k t) :
+    ∃ s', (do if ← optTok t then parseWriteLimit else pure 0 : P Int).run s = .ok (v, s') ∧
+      s'.Around (render rest ++ k) := by
+  cases c with
+  | none =>
+    have hv' : v = 0 := hv
+    subst hv'
+    obtain ⟨s1, h1, b1⟩ := optTok_absent_render t s rest k ts hs hL hh hts hk
+    refine ⟨s1, ?_, b1⟩
+    rw [P.run_bind _ _ s false s1 h1]
+    rfl
+  | some c =>
+    obtain ⟨g1, w1, g2, w2, g3, ds⟩ := c
+    have hv' : ds.Denotes v := hv
+    obtain ⟨s1, h1, b1⟩ := optTok_of (t := t) (L := []) (step s g1 _ _ k hL hs)
+    obtain ⟨lx, s2, h2, t2, _, b2⟩ := step s1 g2 (.kw .LIMIT w2) _ k hL.tail b1.around
+    obtain ⟨s3, h3, b3⟩ := parseDurationTok_spelled hv' (step s2 g3 ds.piece _ k hL.tail.tail b2.around)
+    refine ⟨s3, ?_, b3.around⟩
+    rw [P.run_bind _ _ s true s1 h1]
+    simp only [if_true]
+    unfold parseWriteLimit
+    rw [P.run_bind _ _ s1 lx s2 h2]
+    simp only [t2, Piece.tok, if_true]
+    exact h3
+
+/-- The choices of the mandatory part `<name> ON <db> DURATION <d> REPLICATION <n>`. -/
+structure CrpHead where
+  g1 : Render.Gap
+  sp1 : NameSpelling
+  g2 : Render.Gap
+  on : Str
+  g3 : Render.Gap
+  sp2 : NameSpelling
+  g4 : Render.Gap
+  duration : Str
+  g5 : Render.Gap
+  dur : DurSpelling
+  g6 : Render.Gap
+  replication : Str
+  g7 : Render.Gap
+  zeros : Nat
+
+/-- What follows `CREATE RETENTION POLICY`: the mandatory part, then the optional clauses in the
+order the parser reads them. -/
+def crpPieces (c : CrpHead) (c1 : Option (Render.Gap × Str × Render.Gap × Str × Render.Gap × Str)) (c2 : Option (Render.Gap × Str))
+    (c3 c4 : Option (Render.Gap × Str × Render.Gap × Str × Render.Gap × DurSpelling)) (name db : Str) (n : Nat) :
+    List (Render.Gap × Piece) :=
+  (c.g1, .name c.sp1 name) :: (c.g2, .kw .ON c.on) :: (c.g3, .name c.sp2 db) :: (c.g4, .kw .DURATION c.duration) ::
+    (c.g5, c.dur.piece) :: (c.g6, .kw .REPLICATION c.replication) :: (c.g7, .int c.zeros n) ::
+    (shardPieces c1 ++ (defaultPieces c2 ++ (limitPieces .FUTURE c3 ++ limitPieces .PAST c4)))
+
+/-- **CREATE RETENTION POLICY in free spelling**, with every combination of the optional clauses.
+The duration is a literal with the value `ParseDuration` gives it, or `INF` (zero); the replication
+factor (leading zeros allowed) lies in `1 … MaxInt32`, the range `ParseInt(1, MaxInt32)` accepts;
+an absent `SHARD DURATION` / `FUTURE LIMIT` / `PAST LIMIT` denotes zero. The handler ends around
+`k` (it looks one token ahead unless the statement ends with `PAST LIMIT`); `k` must not begin with
+a token that opens one of the optional clauses. -/
+theorem createRetentionPolicy_render_parse (fuel : Nat) (s : PState) (c : CrpHead)
+    (c1 : Option (Render.Gap × Str × Render.Gap × Str × Render.Gap × Str)) (c2 : Option (Render.Gap × Str))
+    (c3 c4 : Option (Render.Gap × Str × Render.Gap × Str × Render.Gap × DurSpelling)) (name db : Str) (d : Int) (n : Nat)
+    (sh fu pa : Int) (k : Str) (hd : c.dur.Denotes d) (hn : 1 ≤ n ∧ (n : Int) ≤ maxInt32)
+    (hsh : ShardDenotes c1 sh) (hfu : LimitDenotes c3 fu) (hpa : LimitDenotes c4 pa)
+    (hstop : ∀ t ∈ [Token.SHARD, .DEFAULT, .FUTURE, .PAST], NextNot k t)
+    (hL : Legal (crpPieces c c1 c2 c3 c4 name db n) k)
+    (hs : s.Before (render (crpPieces c c1 c2 c3 c4 name db n) ++ k)) :
+    ∃ s', (runHandler fuel .parseCreateRetentionPolicyStatement).run s =
+        .ok (.createRetentionPolicy name db d (n : Int) c2.isSome sh fu pa, s') ∧ s'.Around k := by
+  obtain ⟨s1, h1, b1⟩ := parseIdent_of (name := name) (step s c.g1 _ _ k hL hs.around)
+  have hL1 := hL.tail
+  obtain ⟨s2, h2, b2⟩ := expectTok_of (t := .ON) (L := []) ["ON"] (step s1 c.g2 _ _ k hL1 b1.around)
+  have hL2 := hL1.tail
+  obtain ⟨s3, h3, b3⟩ := parseIdent_of (name := db) (step s2 c.g3 _ _ k hL2 b2.around)
+  have hL3 := hL2.tail
+  obtain ⟨s4, h4, b4⟩ := expectTok_of (t := .DURATION) (L := []) ["DURATION"] (step s3 c.g4 _ _ k hL3 b3.around)
+  have hL4 := hL3.tail
+  obtain ⟨s5, h5, b5⟩ := parseDurationTok_spelled hd (step s4 c.g5 c.dur.piece _ k hL4 b4.around)
+  have hL5 := hL4.tail
+  obtain ⟨s6, h6, b6⟩ := expectTok_of (t := .REPLICATION) (L := []) ["REPLICATION"] (step s5 c.g6 _ _ k hL5 b5.around)
+  have hL6 := hL5.tail
+  obtain ⟨s7, h7, b7⟩ := parseIntRange_of (z := c.zeros) (n := n) 1 maxInt32 (by omega) hn.2
+    (by have := hn.2; unfold maxInt32 at this; unfold maxInt64; omega) (step s6 c.g7 _ _ k hL6 b6.around)
+  have hL7 := hL6.tail
+  have hL8 := ((legal_append _ _ _).mp hL7).2
+  have hL9 := ((legal_append _ _ _).mp hL8).2
+  have hL10 := ((legal_append _ _ _).mp hL9).2
+  obtain ⟨s8, h8, b8⟩ := crp_shard_render s7 c1 sh _ k _ hsh hL7 b7.around
+    ((headTokIn_default c2).append ((headTokIn_limit .FUTURE c3).append (headTokIn_limit .PAST c4))) (by decide)
+    (hstop _ (by simp))
+  obtain ⟨s9, h9, b9⟩ := crp_default_render s8 c2 _ k _ hL8 b8
+    ((headTokIn_limit .FUTURE c3).append (headTokIn_limit .PAST c4)) (by decide) (hstop _ (by simp))
+  obtain ⟨s10, h10, b10⟩ := crp_limit_render .FUTURE s9 c3 fu _ k _ hfu hL9 b9 (headTokIn_limit .PAST c4) (by decide)
+    (hstop _ (by simp))
+  have hL10' : Legal (limitPieces .PAST c4 ++ []) k := by rw [List.append_nil]; exact hL10
+  obtain ⟨s11, h11, b11⟩ := crp_limit_render .PAST s10 c4 pa [] k [] hpa hL10' (by rw [List.append_nil]; exact b10)
+    (.nil _) (by simp) (hstop _ (by simp))
+  refine ⟨s11, ?_, b11⟩
+  simp only [runHandler, parseCreateRetentionPolicy]
+  rw [P.run_bind _ _ s name s1 h1, P.run_bind _ _ s1 () s2 h2, P.run_bind _ _ s2 db s3 h3,
+    P.run_bind _ _ s3 () s4 h4, P.run_bind _ _ s4 d s5 h5, P.run_bind _ _ s5 () s6 h6,
+    P.run_bind _ _ s6 (n : Int) s7 h7, P.run_bind _ _ s7 sh s8 h8, P.run_bind _ _ s8 c2.isSome s9 h9,
+    P.run_bind _ _ s9 fu s10 h10, P.run_bind _ _ s10 pa s11 h11]
+  rfl
+
+/-- **CREATE RETENTION POLICY, from the first character** (`k'` must not start with `SHARD`,
+`DEFAULT`, `FUTURE`, `PAST`; the end of the input qualifies). -/
+theorem createRetentionPolicy_statement_render_parse (text : Str) (params : List (Str × BoundValue))
+    (tbl : List (Char × Char)) (ks : List (Render.Gap × Str)) (hks : ks.length = 3) (c : CrpHead)
+    (c1 : Option (Render.Gap × Str × Render.Gap × Str × Render.Gap × Str)) (c2 : Option (Render.Gap × Str))
+    (c3 c4 : Option (Render.Gap × Str × Render.Gap × Str × Render.Gap × DurSpelling)) (name db : Str) (d : Int) (n : Nat)
+    (sh fu pa : Int) (k' : Str) (hd : c.dur.Denotes d) (hn : 1 ≤ n ∧ (n : Int) ≤ maxInt32)
+    (hsh : ShardDenotes c1 sh) (hfu : LimitDenotes c3 fu) (hpa : LimitDenotes c4 pa)
+    (hstop : ∀ t ∈ [Token.SHARD, .DEFAULT, .FUTURE, .PAST], NextNot (k' ++ [eofRune]) t)
+    (hfold : foldCR text = render (kwPieces [.CREATE, .RETENTION, .POLICY] ks ++ crpPieces c c1 c2 c3 c4 name db n) ++ k')
+    (hL : Legal (kwPieces [.CREATE, .RETENTION, .POLICY] ks ++ crpPieces c c1 c2 c3 c4 name db n) (k' ++ [eofRune])) :
+    parseStatementText text params tbl = .ok (.createRetentionPolicy name db d (n : Int) c2.isSome sh fu pa) := by
+  refine statement_of_family text params tbl [.CREATE, .RETENTION, .POLICY] .parseCreateRetentionPolicyStatement
+    (by simp [familyPaths]) ks hks _ k' _ hfold hL ?_
+  intro s hs hL2
+  obtain ⟨s', h1, _⟩ := createRetentionPolicy_render_parse _ s c c1 c2 c3 c4 name db d n sh fu pa _ hd hn hsh hfu hpa
+    hstop hL2 hs
+  exact ⟨s', h1⟩
+
 /-! ### non-vacuity of the first families -/
 
 /-- `dRoP  /* c */ dataBASE⇥"a b"`: mixed case, two blanks + a block comment + a blank, a tab, a quoted name. -/
@@ -1038,6 +1253,37 @@ example : parseStatementText "grant ALL on \"select\" to alice".toList [] [] =
       [.ws ' '] "FROM".toList [.ws ' '] .quoted [] [] [] .bare [] "a b".toList []).2.2.2 rfl
       (by decide +kernel) ?_
     exact legal_of_spaced _ _ _ _ (by decide +kernel) (by decide +kernel) (by decide +kernel)
+      (fun q _ => q.2.endOK_eof)
+
+/-- Evaluating `ParseDuration` on a concrete literal (for the examples). -/
+theorem parseDuration_ok_of_check (lit : Str) (d : Int)
+    (h : (match parseDuration lit with | .ok v => decide (v = d) | .error _ => false) = true) :
+    parseDuration lit = .ok d := by
+  cases hp : parseDuration lit with
+  | error e => rw [hp] at h; cases h
+  | ok v => rw [hp] at h; simp only [decide_eq_true_eq] at h; rw [h]
+
+/-- `create retention policy "1h" on db0 duration 1h30m replication 03 shard duration 60m default past limit inf`:
+a two-unit duration literal, a leading zero, `INF`, lower-case keywords. -/
+example : parseStatementText
+    "create retention policy \"1h\" on db0 duration 1h30m replication 03 shard duration 60m default past limit inf".toList
+    [] [] = .ok (.createRetentionPolicy "1h".toList "db0".toList 5400000000000 3 true 3600000000000 0 0) := by
+  refine createRetentionPolicy_statement_render_parse _ [] []
+    [([], "create".toList), ([.ws ' '], "retention".toList), ([.ws ' '], "policy".toList)] rfl
+    ⟨[.ws ' '], .quoted, [.ws ' '], "on".toList, [.ws ' '], .bare, [.ws ' '], "duration".toList, [.ws ' '],
+      .lit "1h30m".toList, [.ws ' '], "replication".toList, [.ws ' '], 1⟩
+    (some ([.ws ' '], "shard".toList, [.ws ' '], "duration".toList, [.ws ' '], "60m".toList))
+    (some ([.ws ' '], "default".toList)) none
+    (some ([.ws ' '], "past".toList, [.ws ' '], "limit".toList, [.ws ' '], .inf "inf".toList))
+    "1h".toList "db0".toList 5400000000000 3 3600000000000 0 0 []
+    (parseDuration_ok_of_check "1h30m".toList 5400000000000 (by decide +kernel)) (by decide)
+    (parseDuration_ok_of_check "60m".toList 3600000000000 (by decide +kernel)) rfl rfl
+    ?_ (by decide +kernel) ?_
+  · intro t ht
+    refine nextNot_eof t ?_
+    simp only [List.mem_cons, List.not_mem_nil, or_false] at ht
+    rcases ht with rfl | rfl | rfl | rfl <;> decide
+  · exact legal_of_spaced _ _ _ _ (by decide +kernel) (by decide +kernel) (by decide +kernel)
       (fun q _ => q.2.endOK_eof)
 
 end InfluxQL.C01
